@@ -572,7 +572,8 @@ fn run_subtree(
             t.disabled += 1;
         }
         if let Some(v) = &out.violation {
-            if t.viol.len() < 400 {
+            let same = t.viol.iter().filter(|w| &w.2 == v).count();
+            if same < 5 && t.viol.len() < 2000 {
                 t.viol.push(((0, 0, 0), seq_idx.clone(), v.clone()));
             }
         }
